@@ -9,10 +9,13 @@ import Chrono.Proofs.TzValidL
 import Chrono.Proofs.TzLookupPL
 import Chrono.Proofs.TzLayoutL
 import Chrono.Proofs.TzLocalL
+import Chrono.Proofs.TzDecodeL
+import Chrono.Proofs.TzSamples2
+import Chrono.Proofs.TzOldReader
 
 namespace Chrono.Props.C16
 open Chrono Chrono.M.Tz Chrono.Spec.Tz Chrono.Spec.Tz.Gr Chrono.Proofs.Tz Chrono.Proofs.TzValid
-  Chrono.Extracted.TzP Chrono.Proofs.TzLocal
+  Chrono.Extracted.TzP Chrono.Proofs.TzLocal Chrono.Proofs.TzDecode Chrono.Proofs.TzOld
 
 /-- the extracted header constants are the RFC 8536 ones the writer specification uses, and the
 extracted field bounds are the ones the well-formedness predicates are stated with -/
@@ -96,16 +99,37 @@ theorem rejects_truncated_blocks (bytes : List Nat) (z : Zone) (h : parse bytes 
     parse (bytes.take k) = .err :=
   rejects_truncated_blocks' bytes z h k hk hcut
 
-/-- a cut inside the footer of an accepted file is rejected too, with exactly one exception: the cut
-right after the footer's first newline (the prefix then ends in an empty footer `"\n"`, which is
-well-formed).  Hypothesis: the footer has no newline between its first and last byte (true of every
-footer a conforming writer emits). -/
+/-- a cut inside the footer of an accepted file is rejected too — EVERY such cut since the repair of
+finding F36 (the cut right after the footer's first newline, which leaves the one-byte footer `"\n"`,
+used to be accepted without the rule: `truncated_after_footer_newline_pinned_before_F36`).
+Hypothesis: the footer has no newline between its first and last byte (true of every footer a
+conforming writer emits); it is not needed for the cut right after the first newline. -/
 theorem rejects_truncated_footer (bytes : List Nat) (z : Zone) (h : parse bytes = .ok z) (k : Nat)
     (hk : k < bytes.length) (hin : bytes.length < k + (footerOf bytes).length)
-    (hne : k + (footerOf bytes).length ≠ bytes.length + 1)
     (hnl : ∀ j, 0 < j → j + 1 < (footerOf bytes).length → (footerOf bytes)[j]? ≠ some 10) :
+    parse (bytes.take k) = .err := by
+  by_cases hne : k + (footerOf bytes).length = bytes.length + 1
+  · exact trunc_footer_newline' bytes z h k hk hne
+  · exact rejects_truncated_footer' bytes z h k hk hin hne hnl
+
+/-- F36, the cut itself, for EVERY accepted version-2/3 file and without any hypothesis on the footer:
+the file cut right after the first newline of its footer is rejected -/
+theorem rejects_truncated_after_footer_newline (bytes : List Nat) (z : Zone) (h : parse bytes = .ok z)
+    (k : Nat) (hk : k < bytes.length) (he : k + (footerOf bytes).length = bytes.length + 1) :
     parse (bytes.take k) = .err :=
-  rejects_truncated_footer' bytes z h k hk hin hne hnl
+  trunc_footer_newline' bytes z h k hk he
+
+/-- F36, the footer check on its own: a footer of fewer than two bytes is refused whatever the data
+blocks are, and the footer of every accepted version-2/3 file has at least two bytes -/
+theorem rejects_short_footer :
+    (∀ (footer : List Nat) (v : Version), footer.length < 2 → parseFooter footer v = .err)
+      ∧ (∀ (bytes : List Nat) (z : Zone), parse bytes = .ok z →
+          versionOf ((bytes.drop 4).take 1) ≠ some .V1 → 2 ≤ (footerOf bytes).length) := by
+  refine ⟨fun f v h => footer_short' f v h, fun bytes z h hne => ?_⟩
+  obtain ⟨v2, -, -, -, -, hf⟩ := (accepted_decode' bytes z h).2 hne
+  by_cases hl : (footerOf bytes).length < 2
+  · rw [footer_short' _ _ hl] at hf; cases hf
+  · omega
 
 /-- for files written by the specification's writer the footer the reader sees is `\n<footer>\n`
 (nothing for version 1), so the two theorems above speak about the cut points of the written layout -/
@@ -540,19 +564,55 @@ theorem rejects_count_mismatch (bytes : List Nat) :
     | err => rfl
     | panic => exact absurd hp (parse_total bytes)
 
-/-- MALFORMED FOOTER, on `parse` itself: a version-1 zone has no rule; for versions 2 and 3 the footer
-of an accepted file (`accepted_layout`: newline-framed) is valid UTF-8, its TZ string — the footer
-without surrounding ASCII white space — neither starts with `:` nor contains a NUL, and it is either
-empty with no rule in the zone, or a string of the TZ grammar DENOTING the zone's rule (the extension
-flag being that of the second header's version).  Any other footer is therefore rejected. -/
+/-- MALFORMED FOOTER, on `parse` itself: a version-1 zone has no rule; for versions 2 and 3 the
+footer of an accepted file (`accepted_layout`: newline-framed; `rejects_short_footer`: two bytes at
+least) is valid UTF-8, its TZ string — the footer without surrounding ASCII white space — neither
+starts with `:` nor contains a NUL, and it is either empty with no rule in the zone, or a string of
+the TZ grammar DENOTING the zone's rule, the extension flag being EXACTLY "the file is version 3":
+`v2` is the version field of the second header AND of the first (they agree since the repair of F35,
+`accepted_versions_agree`).  Any other footer is therefore rejected; in particular a footer using
+the RFC 8536 extensions in a version-2 file. -/
 theorem accepted_footer (bytes : List Nat) (z : Zone) (h : parse bytes = .ok z) :
     (versionOf ((bytes.drop 4).take 1) = some .V1 → z.rule = none)
-      ∧ (versionOf ((bytes.drop 4).take 1) ≠ some .V1 →
-          validUtf8 (footerOf bytes) = true ∧ (trimWs (footerOf bytes)).head? ≠ some 58
+      ∧ (versionOf ((bytes.drop 4).take 1) ≠ some .V1 → ∃ v2, secondVersion bytes = some v2
+          ∧ firstVersion bytes = some v2
+          ∧ validUtf8 (footerOf bytes) = true ∧ (trimWs (footerOf bytes)).head? ≠ some 58
             ∧ 0 ∉ trimWs (footerOf bytes)
             ∧ ((trimWs (footerOf bytes) = [] ∧ z.rule = none)
-                ∨ ∃ ext x, z.rule = some x ∧ Denotes ext (trimWs (footerOf bytes)) x)) :=
-  accepted_footer' bytes z h
+                ∨ ∃ x, z.rule = some x ∧ Denotes (v2 == .V3) (trimWs (footerOf bytes)) x)) := by
+  refine ⟨(accepted_footer' bytes z h).1, fun hne => ?_⟩
+  obtain ⟨v2, hv2, hv1, -, -, hf⟩ := (accepted_decode' bytes z h).2 hne
+  exact ⟨v2, hv2, hv1, parseFooter_ok_inv hf⟩
+
+/-- … hence a footer that is in the grammar only WITH the extensions is rejected unless the second
+header says version 3 -/
+theorem rejects_ext_footer_below_v3 (bytes : List Nat)
+    (h1 : versionOf ((bytes.drop 4).take 1) ≠ some .V1) (h2 : secondVersion bytes ≠ some .V3)
+    (hne : trimWs (footerOf bytes) ≠ [])
+    (hf : ∀ x, ¬ Denotes false (trimWs (footerOf bytes)) x) : parse bytes = .err := by
+  cases hp : parse bytes with
+  | ok z =>
+    exfalso
+    obtain ⟨v2, hv2, -, -, -, -, hd⟩ := (accepted_footer bytes z hp).2 h1
+    rcases hd with ⟨he, -⟩ | ⟨x, -, hx⟩
+    · exact hne he
+    · cases v2 with
+      | V3 => exact h2 hv2
+      | V1 => exact hf x hx
+      | V2 => exact hf x hx
+  | err => rfl
+  | panic => exact absurd hp (parse_total bytes)
+
+/-- BAD VERSION, second header: a version-2/3 file whose second header carries an unknown version byte
+(anything but `0x00`, `'2'`, `'3'`) is rejected -/
+theorem rejects_bad_version2 (bytes : List Nat) (h1 : versionOf ((bytes.drop 4).take 1) ≠ some .V1)
+    (h : secondVersion bytes = none) : parse bytes = .err := by
+  cases hp : parse bytes with
+  | ok z =>
+    obtain ⟨v2, hv2, -⟩ := (accepted_decode' bytes z hp).2 h1
+    rw [h] at hv2; cases hv2
+  | err => rfl
+  | panic => exact absurd hp (parse_total bytes)
 
 /-- THE READER'S VALUE ON EVERY WRITTEN FILE, versions 2 and 3.  For every file written by the
 specification's writer whose counts fit the header (`BlockShape`) and whose values merely fit their
@@ -774,5 +834,226 @@ theorem local_panics_pinned_before_F32 :
   unfold M.TzL.local_timestamp_opt
   rw [if_pos hx]
   rfl
+
+/-! ### round 3: what an ARBITRARY accepted file is read as (decode soundness)
+
+`Spec.Tz.decodeBlock ts v blk rule` (Spec/TzDecodeSpec.lean) is the zone the bytes of a block SAY,
+field by field, at the byte offsets its six header counts determine (RFC 8536 §3.2): `timecnt` time
+fields of `ts` bytes from offset 44, `timecnt` type-index bytes, `typecnt` records `utoff(4) isdst(1)
+desigidx(1)`, `charcnt` designation bytes, `leapcnt` records `time(ts) corr(4)` — no reader function
+occurs in it.  `v` is the version field of the block's own header: it decides how a time field is
+taken (`fieldTime`). -/
+
+/-- DECODE SOUNDNESS, every accepted byte string (not only the image of the specification's writer): a
+version-1 file is read as what its only block says (4-byte times, no rule); a version-2/3 file is read
+as what its SECOND block says — the block that starts `announcedLen 4 bytes` bytes into the file —
+with full 8-byte time fields (`v2` is the version of BOTH headers and is not 1, so `fieldTime v2` is
+the whole field: `accepted_decode_consistent`), and the rule its footer denotes (`accepted_footer`).
+Besides, every type record has `isdst ∈ {0, 1}` and a designation index inside the designation array
+with a NUL after it (`TypeRecsOk`).  With `accepted_is_valid` this carries the rejection classes 7e–7g
+over to arbitrary bytes: a file whose FIELDS are unsorted, or point outside the type / designation
+arrays, or state an offset of 24 h or more, is rejected. -/
+theorem accepted_decode (bytes : List Nat) (z : Zone) (h : parse bytes = .ok z) :
+    (firstVersion bytes = some .V1 → z = decodeBlock 4 .V1 bytes none ∧ TypeRecsOk 4 bytes)
+      ∧ (firstVersion bytes ≠ some .V1 → ∃ v2, secondVersion bytes = some v2 ∧ firstVersion bytes = some v2
+          ∧ z = decodeBlock 8 v2 (bytes.drop (announcedLen 4 bytes)) z.rule
+          ∧ TypeRecsOk 8 (bytes.drop (announcedLen 4 bytes))) := by
+  refine ⟨(accepted_decode' bytes z h).1, fun hne => ?_⟩
+  obtain ⟨v2, a, a', b, c, -⟩ := (accepted_decode' bytes z h).2 hne
+  exact ⟨v2, a, a', b, c⟩
+
+/-- … stated on the input: whatever bytes are accepted, the FIELDS they hold are strictly increasing
+transition times, type indices below `typecnt`, and offsets strictly within 24 hours -/
+theorem accepted_fields_valid (bytes : List Nat) (z : Zone) (h : parse bytes = .ok z) :
+    ∃ ts v blk, z = decodeBlock ts v blk z.rule
+      ∧ SortedStrict ((List.range (hdrCount blk 3)).map (decTransition ts v blk))
+      ∧ (∀ i, i < hdrCount blk 3 → (idxArr ts blk).getD i 0 < hdrCount blk 4)
+      ∧ (∀ i, i < hdrCount blk 4 → -86400 < (decType ts blk i).off ∧ (decType ts blk i).off < 86400) := by
+  have hv := accepted_is_valid bytes z h
+  have key : ∀ ts v blk, z = decodeBlock ts v blk z.rule →
+      SortedStrict ((List.range (hdrCount blk 3)).map (decTransition ts v blk))
+      ∧ (∀ i, i < hdrCount blk 3 → (idxArr ts blk).getD i 0 < hdrCount blk 4)
+      ∧ (∀ i, i < hdrCount blk 4 → -86400 < (decType ts blk i).off ∧ (decType ts blk i).off < 86400) := by
+    intro ts v blk e
+    obtain ⟨-, h1, h2, h3⟩ := hv
+    rw [e] at h1 h2 h3
+    simp only [decodeBlock] at h1 h2 h3
+    refine ⟨h1, fun i hi => ?_, fun i hi => ?_⟩
+    · have := h2 (decTransition ts v blk i) (List.mem_map.mpr ⟨i, List.mem_range.mpr hi, rfl⟩)
+      simpa [decTransition] using this
+    · exact (h3 (decType ts blk i) (List.mem_map.mpr ⟨i, List.mem_range.mpr hi, rfl⟩)).1
+  by_cases hf : firstVersion bytes = some .V1
+  · obtain ⟨e, -⟩ := (accepted_decode bytes z h).1 hf
+    have e' : z = decodeBlock 4 .V1 bytes z.rule := by
+      have hr : z.rule = none := by rw [e]; rfl
+      rw [hr]; exact e
+    exact ⟨4, .V1, bytes, e', key _ _ _ e'⟩
+  · obtain ⟨v2, -, -, e, -⟩ := (accepted_decode bytes z h).2 hf
+    exact ⟨8, v2, _, e, key _ _ _ e⟩
+
+/-! #### F35 (repaired by 8cebd0e): the two headers must carry the same version
+
+Finding F35: the reader checked each version byte for membership in `{0x00, '2', '3'}` only and then
+decoded with the SECOND one; the pair was never compared.  A file whose first header says version 2
+and whose second header says version 1 was accepted and its 8-byte times were read as their high four
+bytes; a 2/3 pair was accepted with a footer only version 3 allows.  Since the repair `parse` refuses
+the file when the second header's version differs from the first's. -/
+
+/-- the second header's version EQUALS the first's, for every accepted version-2/3 file -/
+theorem accepted_versions_agree (bytes : List Nat) (z : Zone) (h : parse bytes = .ok z)
+    (hne : firstVersion bytes ≠ some .V1) : secondVersion bytes = firstVersion bytes := by
+  obtain ⟨v2, a, b, -⟩ := (accepted_decode bytes z h).2 hne
+  rw [a, b]
+
+/-- INCONSISTENT VERSIONS ARE REJECTED, universally: any file of version 2 or 3 whose second header's
+version field — known or unknown byte — differs from the first's (with `rejects_bad_version` for an
+unknown first byte; a version-1 file has no second header: `accepted_layout`) -/
+theorem rejects_inconsistent_versions (bytes : List Nat) (hne : firstVersion bytes ≠ some .V1)
+    (hd : secondVersion bytes ≠ firstVersion bytes) : parse bytes = .err := by
+  cases hp : parse bytes with
+  | ok z => exact absurd (accepted_versions_agree bytes z hp hne) hd
+  | err => rfl
+  | panic => exact absurd hp (parse_total bytes)
+
+/-- how a time field is taken: under a header that says version 2 or 3 as the whole field (two's
+complement, big-endian); under a header that says version 1 as its first four bytes (the whole field
+of a first block; the case "8-byte field under a version-1 header" no longer arises, F35) -/
+theorem fieldTime_cases (chunk : List Nat) :
+    fieldTime .V2 chunk = asI64 (beNat chunk) ∧ fieldTime .V3 chunk = asI64 (beNat chunk)
+      ∧ fieldTime .V1 chunk = asI32 (beNat (chunk.take 4)) := ⟨rfl, rfl, rfl⟩
+
+/-- THE FULL STATEMENT (was `accepted_decode_consistent_partial` before the repair, with the agreement
+of the two version fields as a hypothesis): an accepted version-2/3 file — `v` the version of its FIRST
+header — is read as what its second block says with full 64-bit times, and its footer is in the
+grammar of version `v` (extensions iff `v` is 3) -/
+theorem accepted_decode_consistent (bytes : List Nat) (z : Zone) (h : parse bytes = .ok z)
+    (v : Version) (hv : firstVersion bytes = some v) (hne : v ≠ .V1) :
+    z = decodeBlock 8 v (bytes.drop (announcedLen 4 bytes)) z.rule
+      ∧ (∀ chunk, fieldTime v chunk = asI64 (beNat chunk))
+      ∧ ((trimWs (footerOf bytes) = [] ∧ z.rule = none)
+          ∨ ∃ x, z.rule = some x ∧ Denotes (v == .V3) (trimWs (footerOf bytes)) x) := by
+  have hne' : versionOf ((bytes.drop 4).take 1) ≠ some .V1 := by
+    show firstVersion bytes ≠ some .V1
+    rw [hv]; intro e; cases e; exact hne rfl
+  obtain ⟨v2, -, hv2, e, -⟩ := (accepted_decode bytes z h).2 hne'
+  obtain ⟨v2', -, hv2', -, -, -, hd⟩ := (accepted_footer bytes z h).2 hne'
+  rw [hv] at hv2 hv2'
+  cases hv2; cases hv2'
+  refine ⟨e, fun chunk => ?_, hd⟩
+  cases v with
+  | V1 => exact absurd rfl hne
+  | V2 => rfl
+  | V3 => rfl
+
+/-- THE PINNED BEHAVIOUR BEFORE THE REPAIR, kernel-checked on the OLD reader (`parse_before_F35`,
+Proofs/TzOldReader.lean; the same bytes were run through the real crate before 8cebd0e): the 119-byte
+file `mixedV2V1Hex` — first header `'2'`, second header `0x00`, one 64-bit transition time
+`00 00 00 01 00 00 00 02` = 4294967298 — was ACCEPTED with the transition read as `1`; first `'3'` /
+second `0x00` likewise; first `'2'` / second `'3'` was accepted WITH a footer that only version 3 allows
+(`AAA5BBB,M3.2.0/−1,M11.1.0`).  The repaired reader refuses all of them and still reads the consistent
+file. -/
+theorem inconsistent_versions_accepted_pinned_before_F35 :
+    some (mixedFile .V2 .V1 mixBlock2 []) = hexDecode mixedV2V1Hex
+      ∧ parse_before_F35 (mixedFile .V2 .V1 mixBlock2 []) = .ok ⟨[⟨1, 0⟩], [⟨0, false, some (asc "UTC")⟩], [], none⟩
+      ∧ parse_before_F35 (mixedFile .V3 .V1 mixBlock2 []) = .ok ⟨[⟨1, 0⟩], [⟨0, false, some (asc "UTC")⟩], [], none⟩
+      ∧ parse_before_F35 (mixedExtFile .V2 .V3) = .ok ⟨[], [⟨-18000, false, some (asc "AAA")⟩], [], some mixedExtRule⟩
+      ∧ parse (mixedFile .V2 .V1 mixBlock2 []) = .err ∧ parse (mixedFile .V3 .V1 mixBlock2 []) = .err
+      ∧ parse (mixedExtFile .V2 .V3) = .err ∧ parse (mixedExtFile .V3 .V2) = .err
+      ∧ parse (mixedExtFile .V2 .V2) = .err
+      ∧ parse (mixedFile .V2 .V2 mixBlock2 []) = .ok ⟨[⟨4294967298, 0⟩], [⟨0, false, some (asc "UTC")⟩], [], none⟩
+      ∧ parse (mixedExtFile .V3 .V3) = .ok ⟨[], [⟨-18000, false, some (asc "AAA")⟩], [], some mixedExtRule⟩
+      ∧ firstVersion (mixedFile .V2 .V1 mixBlock2 []) = some .V2
+      ∧ secondVersion (mixedFile .V2 .V1 mixBlock2 []) = some .V1 := by
+  refine ⟨by decide +kernel, by decide +kernel, by decide +kernel, by decide +kernel, by decide +kernel,
+    by decide +kernel, by decide +kernel, by decide +kernel, by decide +kernel, by decide +kernel,
+    by decide +kernel, by decide +kernel, by decide +kernel⟩
+
+/-- non-vacuity of `rejects_inconsistent_versions`: the 2/1 file meets its hypotheses -/
+example : parse (mixedFile .V2 .V1 mixBlock2 []) = .err :=
+  rejects_inconsistent_versions _ (by decide +kernel) (by decide +kernel)
+
+/-! #### F36 (repaired by 4daf52d): a footer has at least two bytes
+
+Finding F36: RFC 8536 §3.3: the footer is `NL TZ-string NL` — two newlines even when the TZ string is
+empty.  The reader asked for `starts_with('\n') && ends_with('\n')`, which the ONE-byte footer `"\n"`
+meets with the same byte, so a version-2/3 file cut right after its footer's first newline was accepted
+WITHOUT its rule (`/usr/share/zoneinfo/America/New_York` cut to 3529 of 3552 bytes: `rule=none`, the
+offset on 2040-07-01 became −18000 instead of −14400).  Since the repair the footer arm refuses a
+footer shorter than two bytes: `rejects_short_footer`, `rejects_truncated_after_footer_newline`, and
+`rejects_truncated_footer` no longer has an exception. -/
+
+/-- THE PINNED BEHAVIOUR BEFORE THE REPAIR, kernel-checked on the OLD footer arm (`parse_before_F36`,
+Proofs/TzOldReader.lean): the written samples cut right after the footer's first newline were accepted
+without their rule; such a prefix is not what the specification's writer emits for the same blocks
+with an empty footer (it is one newline short).  The repaired reader refuses the cuts and accepts the
+writer's empty-footer file. -/
+theorem truncated_after_footer_newline_accepted_pinned_before_F36 :
+    parse_before_F36 ((encodeTzif sampleV2).take (footerStart sampleV2 + 1)) = .ok (absBlock sampleV2.v2 none)
+      ∧ parse_before_F36 ((encodeTzif sampleV3).take (footerStart sampleV3 + 1)) = .ok (absBlock sampleV3.v2 none)
+      ∧ parse ((encodeTzif sampleV2).take (footerStart sampleV2 + 1)) = .err
+      ∧ parse ((encodeTzif sampleV3).take (footerStart sampleV3 + 1)) = .err
+      ∧ parse (encodeTzif sampleV2) = .ok (absBlock sampleV2.v2 (some sampleRule2))
+      ∧ (encodeTzif sampleV2).take (footerStart sampleV2 + 1) ++ [10] = encodeTzif { sampleV2 with footer := [] }
+      ∧ parse (encodeTzif { sampleV2 with footer := [] }) = .ok (absBlock sampleV2.v2 none) := by
+  refine ⟨by decide +kernel, by decide +kernel, by decide +kernel, by decide +kernel, by decide +kernel,
+    by decide +kernel, by decide +kernel⟩
+
+/-- non-vacuity: every cut point of the two written samples with a footer, NO exception -/
+example :
+    (∀ k, k < (encodeTzif sampleV2).length → parse ((encodeTzif sampleV2).take k) = .err)
+      ∧ (∀ k, k < (encodeTzif sampleV3).length → parse ((encodeTzif sampleV3).take k) = .err) := by
+  constructor
+  · intro k hk
+    by_cases e : k = footerStart sampleV2 + 1
+    · rw [e]; exact truncated_after_footer_newline_accepted_pinned_before_F36.2.2.1
+    · exact rejects_truncated_samples.2.1 k hk e
+  · intro k hk
+    by_cases e : k = footerStart sampleV3 + 1
+    · rw [e]; exact truncated_after_footer_newline_accepted_pinned_before_F36.2.2.2.1
+    · exact rejects_truncated_samples.2.2 k hk e
+
+/-! #### clause 5 outside C05's `InsideYear` class (G4) -/
+
+/-- `tzif_roundtrip_v2` (the `RuleAgrees` form) on a version-3 file with a PERMANENT-daylight-time
+footer of the kind zic emits (`EST5EDT,0/0,J365/25`): the footer is in the grammar with the extensions
+only (25:00:00), the rule is NOT in C05's class (`¬ TzL.RuleOk`, so `tzif_roundtrip_v2_spec` does not
+apply), the rule agrees with the last transition, and the file is read back exactly -/
+theorem roundtrip_permanent_dst :
+    ¬ Proofs.TzL.RuleOk (some rulePerm)
+      ∧ from_tz_string samplePerm.footer true = .ok rulePerm
+      ∧ from_tz_string samplePerm.footer false = .err
+      ∧ RuleAgrees (absBlock samplePerm.v2 (some rulePerm))
+      ∧ parse (encodeTzif samplePerm) = .ok (absBlock samplePerm.v2 (some rulePerm)) := by
+  have hd : from_tz_string samplePerm.footer true = .ok rulePerm := by decide +kernel
+  have hag : RuleAgrees (absBlock samplePerm.v2 (some rulePerm)) := by
+    intro rule last h1 h2
+    cases h1
+    have e : (absBlock samplePerm.v2 (some rulePerm)).transitions.getLast? = some ⟨1700000000, 0⟩ := by decide
+    rw [e] at h2
+    cases h2
+    exact ⟨1700000000, ⟨-14400, true, some (asc "EDT")⟩, by decide, by decide, by decide +kernel⟩
+  refine ⟨?_, hd, by decide +kernel, hag, ?_⟩
+  · intro hr
+    have h23 : Spec.Zone.InsideYearAt _ 2023 := hr.2.2 2023
+    revert h23
+    decide +kernel
+  · exact tzif_roundtrip_v2 samplePerm (by decide)
+      ⟨by decide, by decide, by decide, by decide, by decide, by decide, by decide, by decide⟩
+      ⟨by decide, by decide, by decide, by decide, by decide, by decide, by decide, by decide⟩
+      ⟨by decide +kernel, by decide +kernel, by decide +kernel, by decide +kernel⟩ _
+      (Or.inr ⟨rulePerm, rfl, tz_accepts_only _ _ _ hd⟩)
+      (show True from trivial) (by decide) (by decide) hag
+
+/-- non-vacuity of `accepted_decode` / `accepted_footer` / `rejects_bad_version2` on real shapes: the
+version-2 sample is what its second block says, with the rule its footer denotes WITHOUT extensions;
+an unknown second version byte (`'4'`) is refused -/
+example :
+    absBlock sampleV2.v2 (some sampleRule2)
+        = decodeBlock 8 .V2 ((encodeTzif sampleV2).drop (announcedLen 4 (encodeTzif sampleV2))) (some sampleRule2)
+      ∧ secondVersion (encodeTzif sampleV2) = some .V2
+      ∧ secondVersion ((encodeTzif sampleV2).set (announcedLen 4 (encodeTzif sampleV2) + 4) 52) = none
+      ∧ parse ((encodeTzif sampleV2).set (announcedLen 4 (encodeTzif sampleV2) + 4) 52) = .err := by
+  refine ⟨by decide +kernel, by decide +kernel, by decide +kernel, ?_⟩
+  exact rejects_bad_version2 _ (by decide +kernel) (by decide +kernel)
 
 end Chrono.Props.C16
